@@ -15,7 +15,7 @@ def kind : String → R MethodKind
 def parseExc : String → R ParseExc
   | "arrowInvalid" => pure .arrowInvalid | "osError" => pure .osError | "arrowNotImplemented" => pure .arrowNotImplemented
   | "arrowKeyError" => pure .arrowKeyError | "arrowTypeError" => pure .arrowTypeError | "arrowOther" => pure .arrowOther
-  | "ipcError" => pure .ipcError | "unicodeDecode" => pure .unicodeDecode | "stopIteration" => pure .stopIteration
+  | "ipcError" => pure .ipcError | "ipcErrorLate" => pure .ipcErrorLate | "unicodeDecode" => pure .unicodeDecode | "stopIteration" => pure .stopIteration
   | s => throw s!"parse exception class {s}"
 
 def metaDefect : String → R MetaDefect
@@ -82,6 +82,9 @@ def handle (fn : String) (a : Json) : R Json := do
                ("defects", ofList ((Spec.defects rq).map (fun d => Json.str (defectName d)))),
                ("allowed", ofList ((Spec.defects rq).map (fun d => ofNat (Spec.statusOf d)))),
                ("dispatched", ofBool (Spec.dispatched rq)), ("failed", ofBool (Spec.failed rq))])
+  | "shape" =>
+    pure (obj [("readWrapsBatchValidation", ofBool VgiVerif.Gen.HttpStatus.tables.readWrapsBatchValidation),
+               ("readWrapsKwargs", ofBool VgiVerif.Gen.HttpStatus.tables.readWrapsKwargs)])
   | _ => throw s!"unknown function C15.{fn}"
 
 end VgiVerif.C15.Driver
